@@ -60,6 +60,8 @@ def mutated_texts():
 
 
 HEX = "0123456789abcdefABCDEF"
+# characters for which str.isdigit() / isdecimal() / isnumeric() is true but which are not ASCII digits
+LOOKALIKE_DIGITS = ["\xb2", "\u2460", "\xbd", "\u0663", "\uff13", "\u0969"]
 
 
 def escape_productions():
@@ -71,6 +73,8 @@ def escape_productions():
                          "\\U0000D800", "\\x00", "\\u0000", "\\0", "\\uFFFE", "\\uFFFF", "\\U0001FFFF"]),
         badhex(2).map(lambda h: "\\x" + h), badhex(4).map(lambda h: "\\u" + h), badhex(8).map(lambda h: "\\U" + h),
         st.characters(exclude_categories=("Cs",)).map(lambda c: "\\" + c),
+        st.tuples(st.sampled_from(["\\x", "\\u", "\\U"]), st.lists(st.sampled_from(LOOKALIKE_DIGITS + ["1", "a"]), min_size=1, max_size=8)).map(
+            lambda t: t[0] + "".join(t[1])),
         st.sampled_from(["\\", "\\\n", "\\\r\n  ", "\\ ", "\\\t", "\\N", "\\_", "\\L", "\\P", "\\e", "\\/", "\\q", "\\8", "\\'"]))
     body = st.lists(st.one_of(forms, forms, st.sampled_from(["a", " ", "b c", "\n", "\n\n ", "'", "#"])), min_size=1, max_size=5).map("".join)
     wrap = st.sampled_from(['"%s"', '"%s', 'k: "%s"', '- "%s"\n- x', '["%s", a]', '{"%s": 1}', '? "%s"\n: v', '--- "%s"\n...\n', "'%s'", "%s"])
@@ -79,7 +83,7 @@ def escape_productions():
 
 def directive_productions():
     digits = st.one_of(st.integers(0, 12).map(str), st.sampled_from(["", "1", "01", "9" * 9, "9" * 10, "1" * 100, "7" * 4299, "7" * 4301, "7" * 5000,
-                                                                    "-1", "+1", "1e3", "x", " 1"]))
+                                                                    "-1", "+1", "1e3", "x", " 1"] + LOOKALIKE_DIGITS + ["1" + d for d in LOOKALIKE_DIGITS]))
     yaml_dir = st.tuples(digits, st.sampled_from([".", ".", "", " ", ".."]), digits, st.sampled_from(["", " ", " #c", " x", ".1", "\t"])).map(
         lambda t: "%YAML " + t[0] + t[1] + t[2] + t[3])
     handle = st.sampled_from(["!e!", "!", "!!", "!e", "e!", "", "!a-b_c!", "!a b!", "!\xe9!", "!e!!", "!" + "h" * 300 + "!"])
@@ -96,7 +100,9 @@ def directive_productions():
 
 
 def header_productions():
-    ind = st.sampled_from(["", "0", "1", "2", "9", "10", "00", "-", "+", "-+", "+-", "1-", "-1", "+9", "1-2", "12", "x", " ", "\t", "-0", "0-"])
+    # digit look-alikes: characters for which str.isdigit()/isdecimal() is true but which are not ASCII digits
+    ind = st.sampled_from(["", "0", "1", "2", "9", "10", "00", "-", "+", "-+", "+-", "1-", "-1", "+9", "1-2", "12", "x", " ", "\t", "-0", "0-",
+                           "\xb2", "\u2460", "\xbd", "\u0663", "\uff13", "\xb2-", "+\u0663", "1\xb2", "\u0969"])
     head = st.tuples(st.sampled_from(["|", ">"]), ind, st.sampled_from(["", " ", " #c", " x", "#c", "\t#c"])).map("".join)
     body = st.sampled_from(["\n a\n", "\n  a\n b\n", "\n\n\n   a\n", "\na\n", "\n \n  \n   \n a\n", "", "\n", "\n\ta\n", "\n a\n\tb\n", "\n a\n...\n",
                             "\n a\n---\nb", "\n   a\n  b\n c\n", "\n a\r b\r\n c\x85 d  e", "\n" + " " * 1100 + "a\n"])
@@ -119,8 +125,20 @@ def structure_productions():
     return atoms
 
 
+def numberlike_productions():
+    """Long plain scalars that almost match a numeric / timestamp production and then stop matching: candidates for
+    catastrophic backtracking in the implicit resolvers, and for unguarded int()/float() conversions."""
+    run = st.integers(18, 64)
+    digit = st.sampled_from(["1", "7", "0", "9", "_", "1_", "12", "0_"])
+    prefix = st.sampled_from(["", "-", "+", "0x", "0b", "0o", "0", ".", "1.", "1e", "1.5e+", "1:", "2001-", "2001-01-", "2001-01-01 ", "2001-01-01T1",
+                              "\xb2", "\u0663"])
+    suffix = st.sampled_from(["-a", "x", ":", ".", "e", "_", " a", ":6", ":61", "-", "+", "g", "\xb2", "\u0663", ".e", "e+", "1e1e1", ""])
+    ctx = st.sampled_from(["%s\n", "k: %s\n", "- %s\n", "[%s]\n", "%s: v\n", "{k: %s}\n", "!!int %s\n", "!!float %s\n", "!!timestamp %s\n"])
+    return st.tuples(ctx, prefix, digit, run, suffix).map(lambda t: t[0] % (t[1] + t[2] * t[3] + t[4]))
+
+
 def productions():
-    return st.one_of(escape_productions(), directive_productions(), header_productions(), tag_anchor_productions(), structure_productions())
+    return st.one_of(numberlike_productions(), escape_productions(), directive_productions(), header_productions(), tag_anchor_productions(), structure_productions())
 
 
 def all_truncations(text):
